@@ -233,9 +233,11 @@ def Built.toPre : Built → Option ErrCode
   | .null => some .NOT_IMPLEMENTED          -- `if (!bop) throw error(NOT_IMPLEMENTED)` in `apply`
   | .threw e => some e
 
-/-- VM_MULTIPLY / MV_MULTIPLY factories: the result range is examined first -/
+/-- VM_MULTIPLY / MV_MULTIPLY factories: all three forests must be multi-terminal (tested first, since /repo
+    fix 41a8b5e), then the result range is examined -/
 def preVecMat (vec mat c : AKind) (sd : Bool) : Option ErrCode :=
-  match c.range with
+  if vec.lab != .mt || mat.lab != .mt || c.lab != .mt then some .TYPE_MISMATCH
+  else match c.range with
   | .bool => some .TYPE_MISMATCH
   | _ => prePrepostCtor vec mat c sd
 
@@ -422,14 +424,14 @@ def laxA : OpKind → AKind → AKind → AKind → Bool → Bool → Bool
   | .REACHABLE_TRAD_FS_FWD, a, b, c, sd, sac | .REACHABLE_TRAD_FS_BWD, a, b, c, sd, sac =>
     sd && imageReq a { b with range := .bool } c && c.lab == .mt && c.range == .bool &&
     (b.range != .bool || !sac)
-  -- L5 (crash for index sets): vector-matrix product only looks at the labeling of the MATRIX and
-  -- compares the vector's range with the result's
+  -- L5: the vector-matrix product compares the vector's range with the result's but never looks at the
+  -- range of the MATRIX (the labelings are all tested since /repo fix 41a8b5e)
   | .VM_MULTIPLY, a, b, c, sd, sac =>
-    sd && !a.rel && b.rel && !c.rel && b.lab == .mt && a.lab == c.lab && a.range == c.range &&
-    isNumeric c.range && !(a.lab == .mt && b.range == c.range)
+    sd && !a.rel && b.rel && !c.rel && a.lab == .mt && b.lab == .mt && c.lab == .mt && a.range == c.range &&
+    isNumeric c.range && b.range != c.range
   | .MV_MULTIPLY, a, b, c, sd, sac =>
-    sd && a.rel && !b.rel && !c.rel && a.lab == .mt && b.lab == c.lab && b.range == c.range &&
-    isNumeric c.range && !(b.lab == .mt && a.range == c.range)
+    sd && a.rel && !b.rel && !c.rel && a.lab == .mt && b.lab == .mt && c.lab == .mt && b.range == c.range &&
+    isNumeric c.range && a.range != c.range
   | _, _, _, _, _, _ => false
 
 /-- documented requirement violated, call accepted all the same (see `laxA`) -/
